@@ -257,7 +257,9 @@ def to_labels(recs):
                     checks.append((pre, "admF", eF, "downstream monitor on disk %s forgotten the HTLC" % ("has" if eF else "has not")))
                     i = emit("LCrash %s %s %s" % (bl(eU), bl(eC), bl(eF)))
                     replay = any(r2[2] == "PERSIST" and r2[3]["chan"] == "U" and "PaymentPreimage" in r2[3].get("steps", "") for r2 in g)
-                    checks.append((i, "claimed_after_restart", 1 if (eU or replay) else 0,
+                    aborted = any(r2[2] in ("PANIC", "RELOADFAIL") for r2 in g)
+                    if not aborted:
+                      checks.append((i, "claimed_after_restart", 1 if (eU or replay) else 0,
                                    "after the restart the preimage is %s upstream (on disk: %s, replayed at startup: %s)" % ("secured/in flight" if (eU or replay) else "unknown", eU, replay)))
                     info["crash_mapped"] = 1
                 stop = "restart"
